@@ -140,6 +140,20 @@ CHECKS["C07"] = dict(engine="E1", cat="model_checking", design="4/C07",
                      note="string-level validation of the library is the per-row reference (differential); rows sharing a "
                           "time point are left to C10; 'errors of a cell' = per-cell basic checks")
 
+CHECKS["C20"] = dict(engine="E2", cat="model_checking", design="4/C20",
+                     technique="explicit enumeration of all valid event histories up to a row bound on the real "
+                               "EventManager, compared time point by time point with a reference interval model",
+                     text="Every sequence of <= 3 (thorough 4) rows of 1-2 items (Onset/Offset of two names, Duration groups "
+                          "of 4 lengths in s / ms / bare, Delay-shifted Onsets and Durations incl. two Delay groups in one "
+                          "row, plain tag, empty) under every non-decreasing onset assignment over the grid, filtered to "
+                          "valid histories by the reference machine, is given to EventManager: entries in time order, the "
+                          "set of time points, the processes listed at their start point, the context (started strictly "
+                          "earlier, not ended) and the remaining annotation must equal the reference at every time point; "
+                          "HedTagManager shows an Event-context exactly where the context is non-empty; non-monotone "
+                          "onsets are rejected with HedFileError.",
+                     note="only the first entry of a merged time point is judged; a Delay tag left in a shifted process' "
+                          "text is ignored; durations on a 0.5 s grid")
+
 PENDING_REASON = "check not built yet in this revision (planned in DESIGN.md section 4); not claimed until it is"
 
 
